@@ -150,7 +150,7 @@ pub fn value_text(rng: &mut Rng, spec: &CharacterDataSpec, version: AutosarVersi
             pad(rng, t)
         }
         CharacterDataSpec::Float => {
-            let t = (*rng.pick(&["0", "1.5", "-0.0", "1e3", "1.5E-2", ".5", "5.", "-2.25", "1e400", "4.9e-324", "0.30000000000000004", "123456789.125"])).to_string();
+            let t = (*rng.pick(&["0", "1.5", "-0.0", "1e3", "1.5E-2", ".5", "5.", "-2.25", "1e400", "-1e400", "4.9e-324", "2.5e-310", "0.30000000000000004", "123456789.125", "INF", "-INF", "NaN", "inf", "-inf"])).to_string();
             pad(rng, t)
         }
     })
